@@ -590,6 +590,19 @@ func (env *Env) call(n *Node) *Value {
 	case "allocated":
 		x := arg(0)
 		return term(sel(e.comp(env.st, "alloc", arrSort(sBool)), x.T), sBool, boolT)
+	case "at": // at(m, k): Go's m[k] on a map, the zero value when k is absent (m[k] in contracts is the raw entry)
+		m, k := arg(0), arg(1)
+		mt, ok := m.Type.Underlying().(*types.Map)
+		if !ok {
+			env.fail("at() needs a map")
+		}
+		dn, vn, _ := e.mapComps(mt)
+		ks, vs := e.sorts.sortOf(mt.Key()), e.sorts.sortOf(mt.Elem())
+		d := e.comp(env.st, dn, arrSort(arrSortK(ks, sBool)))
+		vv := e.comp(env.st, vn, arrSort(arrSortK(ks, vs)))
+		return term(ite(and(not(eq(m.T, "0")), sel(sel(d, m.T), k.T)), sel(sel(vv, m.T), k.T), e.sorts.zero(mt.Elem())), vs, mt.Elem())
+	case "slt": // string order (Go's < on strings; uninterpreted)
+		return term(app("s.lt", arg(0).T, arg(1).T), sBool, boolT)
 	case "feq": // IEEE equality (NaN != NaN, +0 == -0); contract `==` on floats is identity
 		return term(app("fp.eq", arg(0).T, arg(1).T), sBool, boolT)
 	case "isNaN":
